@@ -59,3 +59,23 @@ def run_rule(ctx, repo):
                                                   "but keeps %s of the previous decomposition" % ", ".join(missing)), f.W(a))
     if n == 0:
         ctx.undecided("C08.partition", "EIG/derived", "no assignment of self.mu found", "andes/routines/eig.py")
+
+
+def every_path_rule(ctx, repo):
+    """calc_As recomputes the state matrix and what goes with it: every attribute it assigns on some path is assigned on EVERY path, so
+    that nothing of a previous analysis survives (`Asc`, the complete matrix, used to be written only when zero-time-constant states exist:
+    once they were gone it kept the matrix of the earlier analysis and export_mat wrote it)."""
+    f = F.method(repo, "EIG", "calc_As", EIG)
+    attrs = {}
+    for n in f.g.nodes():
+        d = f.g.data(n)
+        if d["kind"] == "stmt" and isinstance(d["ast"], ast.Assign):
+            for t in d["ast"].targets:
+                for e in (t.elts if isinstance(t, ast.Tuple) else [t]):
+                    if (dotted(e) or "").startswith("self.") and (dotted(e) or "").count(".") == 1:
+                        attrs.setdefault(dotted(e), []).append(n)
+    for a, nodes in sorted(attrs.items()):
+        ok, pth = f.g.must_pass(f.g.entry, f.g.exit, nodes)
+        ctx.check(ok, "C08.partition", "EIG.calc_As/every-path/%s" % a[5:], "`%s` is assigned on every path through calc_As" % a,
+                  "`%s` is assigned only on some paths of calc_As (%s): on the others the value of an earlier analysis survives" % (
+                      a, f.g.fmt_path(pth or [])), f.W(nodes[0]))
